@@ -64,13 +64,15 @@ def make_script(sc: dict, i: int):
             beh["next"] = t + 1 + (r >> 3) % 3
         out = {}
         settle = (r >> 6) % 4              # event outputs stop after this many sub-steps
+        if "loop_len" in sc:
+            settle = sc["loop_len"]
         for e in (0, 1):
             for a in (2, 3):
                 rr = h(seed, i, t, k, e, a)
                 if is_persistent(typ, a):
                     if not sc.get("sparse_persistent") or rr % 4 != 0:
                         out[(str(e), ATTRS[a])] = token(i, n, e, a)
-                elif k < settle and rr % 3 != 0:
+                elif k < settle and (rr % 3 != 0 or "loop_len" in sc):
                     out[(str(e), ATTRS[a])] = token(i, n, e, a)
         beh["out"] = out
         if typ != "time-based" and sc.get("future_outputs") and (r >> 20) % 4 == 0:
@@ -110,6 +112,10 @@ def make_script(sc: dict, i: int):
                 beh.pop("next", None)
             elif kind == "out_time_past":
                 beh["out_time"] = t - 1
+            elif kind == "out_time_zero":
+                beh["out_time"] = 0 if t > 0 else -1
+            elif kind == "float_integral":
+                beh["next"] = float(t + 1)
         return beh
     return script
 
@@ -213,16 +219,16 @@ def flat_inputs(inputs):
 
 def s_event(ev):
     if ev[0] == "begin":
-        _, sid, tiers, inputs, m = ev
+        _, sid, tiers, inputs, m = ev[:5]
         items = flat_inputs(inputs)
         return (f"begin {sid[1:]} {':'.join(map(str, tiers))} {m} {len(items)}" +
                 "".join(f" {e} {a} {s} {se} {s_val(v)}" for e, a, s, se, v in items))
     if ev[0] == "done":
         return f"done {ev[1][1:]}"
     if ev[0] == "rtwarn":
-        return f"rtwarn {ev[1][1:]}"
+        return "rtwarn"
     if ev[0] == "event-ignored":
-        return f"event-ignored {ev[1][1:]}"
+        return "event-ignored"
     return None
 
 
@@ -329,7 +335,14 @@ def nonuniform_cutoff(sc: dict, triggers_only: bool) -> bool:
 
 def run_impl(sc: dict, sched_seed: int):
     rng = random.Random(sched_seed)
-    outcome, c = run_world(build_from(sc), sc["until"], lambda opts: rng.randrange(len(opts)), lazy=sc["lazy"], cache=sc["cache"],
+
+    def chooser(opts):
+        if sc.get("instant"):
+            # simulators answer instantly: real time passes only when no reply is pending
+            real = [i for i, o in enumerate(opts) if o != ("clock", "tick")]
+            return rng.choice(real) if real else len(opts) - 1
+        return rng.randrange(len(opts))
+    outcome, c = run_world(build_from(sc), sc["until"], chooser, lazy=sc["lazy"], cache=sc["cache"],
                            max_loop_iterations=sc["max_loop"], rt_factor=sc.get("rt"), rt_strict=bool(sc.get("rt_strict")))
     if c.deadlock:
         outcome = "deadlock"
@@ -377,6 +390,10 @@ def compare(driver, sc: dict, sched_seed: int):
                 if refused and j == len(pre) - 1:
                     # the request raised inside the simulator's step: the step reply never reaches mosaik
                     impl_obs.append(canon_obs(status, [e for e in events if e[0] == "begin" or e[0] == "done"]))
+                elif l.startswith("act setevent"):
+                    ign = [e for e in events if e[0] == "event-ignored"]
+                    impl_obs.append(canon_obs("running", ign))
+                    events = [e for e in events if e[0] != "event-ignored"]
                 else:
                     impl_obs.append(None)
             if refused and pre:
@@ -426,7 +443,16 @@ def e_before_stepped(e, events):
     return True
 
 
+import re as _re
+
+
 def canon_model(s: str) -> str:
+    s = _re.sub(r"rtwarn \d+", "rtwarn", s)
+    s = _re.sub(r"event-ignored \d+", "event-ignored", s)
+    s = _re.sub(r"RuntimeError too-slow \d+", "RuntimeError too-slow", s)
+    if " | " in s:
+        head, *evs = s.split(" | ")
+        s = " | ".join([head] + sorted(evs))
     if s.startswith("ScenarioError cycle"):
         return "failed ScenarioError cycle"
     if s.startswith("AssertionError closure"):
@@ -445,8 +471,8 @@ def canon_impl(s: str) -> str:
 
 # ------------------------------------------------------------------ generator
 
-def gen_scenario(rng: random.Random, groups: bool = True, async_req: bool = False, faults: bool = False) -> dict:
-    n = rng.choice([2, 2, 3, 3, 3, 4, 4, 5])
+def gen_scenario(rng: random.Random, groups: bool = True, async_req: bool = False, faults: bool = False, rt: bool = False) -> dict:
+    n = rng.choice([2, 2, 3, 3, 3, 4, 4, 5]) if not rt else rng.choice([2, 2, 2, 3])
     sims = []
     use_groups = groups and rng.random() < 0.6
     for i in range(n):
@@ -457,7 +483,7 @@ def gen_scenario(rng: random.Random, groups: bool = True, async_req: bool = Fals
     connects = []
     used = set()
     for _ in range(rng.randint(1, 2 * n)):
-        if rng.random() < 0.93:
+        if rng.random() < 0.93 and n >= 2:
             s, d = rng.sample(range(n), 2)
         else:
             s = d = rng.randrange(n)
@@ -499,12 +525,45 @@ def gen_scenario(rng: random.Random, groups: bool = True, async_req: bool = Fals
           "max_loop": rng.choice([2, 3, 4, 100]) if use_groups else 100,
           "lazy": rng.random() < 0.5, "cache": rng.random() < 0.5, "beh_seed": rng.randrange(10 ** 9),
           "sparse_persistent": rng.random() < 0.2, "future_outputs": rng.random() < 0.3}
+    if rt:
+        sc["rt"] = rng.choice([1, 1, 2, 3])
+        sc["rt_strict"] = rng.random() < 0.2
+        sc["instant"] = rng.random() < 0.4
+        sc["future_outputs"] = False
+        if rng.random() < 0.5:
+            sc["extra_async"] = [{"sim": rng.randrange(n), "n": rng.randrange(0, 3), "kind": "set_event",
+                                  "time": rng.choice([1, 2, 3, 4, sc["until"], sc["until"] + 2])}]
     if async_req and rng.random() < 0.25:
         a, b = rng.sample(range(n), 2)
         sc["extra_async"] = [{"sim": a, "n": rng.randrange(0, 3), "kind": rng.choice(["set_data", "get_data"]), "target": b}]
     if faults and rng.random() < 0.8:
         sc["fault"] = {"sim": rng.randrange(n), "n": rng.randrange(0, 4),
-                       "kind": rng.choice(["float", "str", "bool", "negative", "equal", "past", "none", "out_time_past"])}
+                       "kind": rng.choice(["float", "str", "bool", "negative", "equal", "past", "none", "out_time_past", "out_time_zero",
+                                           "out_time_zero", "float_integral"])}
+    return normalise(sc)
+
+
+def gen_loop_scenario(rng: random.Random) -> dict:
+    """A same-time loop of 2-3 simulators inside a group of depth 2-4 (one weak connection), kept alive for
+    loop_len sub-steps, with loop_len around max_loop_iterations; optionally an outer loop around it."""
+    depth_path = rng.choice([[0], [0], [0, 0], [0, 0], [0, 0, 0]])
+    k = rng.choice([2, 2, 3])
+    sims = [{"type": rng.choice(["event-based", "hybrid"]), "group": list(depth_path), "init_ev": None} for _ in range(k)]
+    sims[0]["type"] = "event-based"
+    sims[0]["init_ev"] = rng.choice([0, 0, 1, 2])
+    connects = []
+    for i in range(k):
+        weak = i == k - 1
+        connects.append({"src": i, "seid": 0, "dst": (i + 1) % k, "deid": 0, "sattr": 3, "dattr": 1, "ts": 0, "weak": weak,
+                         "init": False, "async": False})
+    if rng.random() < 0.4:
+        # an observer outside the loop
+        sims.append({"type": "hybrid", "group": list(depth_path[:-1]), "init_ev": None})
+        connects.append({"src": 0, "seid": 0, "dst": k, "deid": 0, "sattr": 3, "dattr": 1, "ts": 0, "weak": False, "init": False, "async": False})
+    ml = rng.choice([1, 2, 3, 4])
+    sc = {"sims": sims, "connects": connects, "until": rng.randint(2, 4), "max_loop": ml,
+          "lazy": rng.random() < 0.5, "cache": rng.random() < 0.5, "beh_seed": rng.randrange(10 ** 9),
+          "sparse_persistent": False, "future_outputs": False, "loop_len": max(0, ml + rng.choice([-1, 0, 0, 1, 2]))}
     return normalise(sc)
 
 
